@@ -13,14 +13,17 @@ for res in sorted(glob.glob("/tmp/seedcheck/results/*.json")):
         continue
     pid = r["property"]
     src = r["dir"]
-    name = "%s-%s" % (pid, os.path.basename(src.rstrip("/")))
+    base = os.path.basename(src.rstrip("/"))
+    # a re-verification of a kept change runs from /verif/seeded/<name> itself
+    inplace = os.path.dirname(os.path.abspath(src.rstrip("/"))) == os.path.join(V, "seeded")
+    name = base if inplace else "%s-%s" % (pid, base)
     dst = os.path.join(V, "seeded", name)
     os.makedirs(dst, exist_ok=True)
     for f in ("patch.diff", "demo.rs", "demo.sh"):
-        if os.path.exists(os.path.join(src, f)):
+        if not inplace and os.path.exists(os.path.join(src, f)):
             shutil.copy(os.path.join(src, f), os.path.join(dst, f))
     meta = {}
-    if os.path.exists(os.path.join(src, "meta.json")):
+    if not inplace and os.path.exists(os.path.join(src, "meta.json")):
         try:
             meta = json.load(open(os.path.join(src, "meta.json")))
         except Exception:
@@ -28,6 +31,8 @@ for res in sorted(glob.glob("/tmp/seedcheck/results/*.json")):
     old = {}
     if os.path.exists(os.path.join(dst, "meta.json")):
         old = json.load(open(os.path.join(dst, "meta.json")))
+    if inplace:
+        meta = dict(old)
     meta["property"] = pid
     meta["origin"] = "written by an independent sub-agent that saw only the property text and a scratch worktree"
     ver = old.get("verified_by_verif", {})
